@@ -46,6 +46,12 @@ fn serialize_file_list(files: &[String]) -> String {
     files.join("\n")
 }
 
+/// The patterns of a Files field are separated by whitespace (spaces as
+/// well as newlines).
+fn deserialize_patterns(text: &str) -> Result<Vec<String>, String> {
+    Ok(text.split_whitespace().map(|x| x.to_string()).collect())
+}
+
 /// A header paragraph.
 #[derive(FromDeb822, ToDeb822, Clone, PartialEq, Eq, Debug)]
 pub struct Header {
@@ -171,7 +177,7 @@ fn serialize_copyrights(copyrights: &[String]) -> String {
 /// A paragraph describing a set of files.
 #[derive(FromDeb822, ToDeb822, Clone, PartialEq, Eq, Debug)]
 pub struct FilesParagraph {
-    #[deb822(field="Files", deserialize_with = deserialize_file_list, serialize_with = serialize_file_list)]
+    #[deb822(field="Files", deserialize_with = deserialize_patterns, serialize_with = serialize_file_list)]
     files: Vec<String>,
     #[deb822(field = "License")]
     license: License,
